@@ -114,6 +114,10 @@ func MayReachExitWithout(from ssa.Instruction, hit func(ssa.Instruction) bool) (
 		}
 		return false
 	}
+	if _, isRet := from.(*ssa.Return); isRet {
+		// from is itself the exit (callers have established that it is not a hit)
+		return true, from
+	}
 	r := walk(from.Block(), instrIndex(from)+1)
 	return r, exit
 }
